@@ -2,13 +2,15 @@
 from core import Case
 
 PROP = 'C18'
-COQ_FILES = ['Extract/C18.v', 'Properties/C18.v']
+COQ_FILES = ['Extract/C18.v', 'Glue/WireGlue.v', 'Properties/C18.v']
 DRIVER = 'c18'
 IMPL = 'harness/impl/c18_impl.py'
 ALLOWED_AXIOMS = []
 ASSUMPTIONS = [
     'theorems are about coq/Model/Wire.v (lib_* mirrors encoding.py / scripts.py, core_* the protocol definition)',
-    'tie to /repo: differential correspondence of every lib_* function against the public API on each run',
+    'tie to /repo: (a) int_to_varbyteint, varbyteint_to_int, varstr, data_pack, encode_num, decode_num are re-translated from the source '
+    'on every run (translator/py2coq.py -> Gen/GenFuncs.v) and proved equal to the model (Glue/WireGlue.v, theorem source_is_model); '
+    '(b) differential correspondence of every lib_* function against the public API on each run',
     'Signature.parse_bytes / Key() acceptance inside Script.parse are oracles (sig_ok, key_ok) in the model; '
     'script-type post-processing of parse_bytesio (multisig consistency errors) is not modelled',
 ]
